@@ -60,7 +60,9 @@ func (s scenario) String() string {
 var (
 	// (a link-local IPv6 peer comes with a zone: "[fe80::1%eth0]:41000" is what net/http reports as remote address)
 	peers   = []string{"10.1.2.3", "10.1.9.9", "192.0.2.10", "127.0.0.1", "2001:db8::1", "2001:db8:1::5", "::1", "fe80::1%eth0"}
-	entries = []string{"10.1.2.3", "10.1.0.0/16", "192.0.2.0/24", "127.0.0.1", "2001:db8::1", "2001:db8::/48", "::1", "0.0.0.0/0", "not-an-ip", "10.0.0.0/33", "", "300.1.1.1"}
+	entries = []string{"10.1.2.3", "10.1.0.0/16", "192.0.2.0/24", "127.0.0.1", "2001:db8::1", "2001:db8::/48", "::1", "0.0.0.0/0", "not-an-ip", "10.0.0.0/33", "", "300.1.1.1",
+		// trusted_proxies cannot name a zone, and a link-local address says nothing without one: a scoped peer is nobody's proxy
+		"fe80::1", "fe80::/10", "::/0"}
 )
 
 func peerTrusted(trusted *[]string, peer string) bool {
